@@ -21,7 +21,8 @@ SPECS["C17"] = {
     "stub": [],
     "expect_reach": ["npts_changed_on_live_object", "call_after_aborted_call", "integrand_raised",
                      "bad_npts_rejected", "bad_range_rejected", "sibling_table_same_length_and_end_points",
-                     "integrand_reenters_the_same_object"],
+                     "integrand_reenters_the_same_object", "interval_end_points_of_type_float32",
+                     "caller_edited_a_result_in_place"],
     "manifest": {
         "design_ref": "3.4",
         "level_text": ("seeded search over call histories (changing/repeated/omitted point counts, integrands "
@@ -129,7 +130,8 @@ SPECS["C01"] = _rec(
      "least one perturbation fired; distinct = distinct event-log digests among those"),
     ["create_over_stale_bytes", "overwrite", "path_held_other_form", "object_reopened_on_other_file",
      "table_larger_than_stdio_buffer", "interleaved_callers", "nonzero_offset", "long_lived_object_reopened",
-     "header_dict_read_from_an_earlier_file", "caller_edited_a_header_dict_it_was_handed"],
+     "header_dict_read_from_an_earlier_file", "caller_edited_a_header_dict_it_was_handed",
+     "caller_edited_a_result_in_place", "file_names_expanded_by_esutil_var", "file_names_expanded_by_esutil_home"],
     ("seeded search over dtypes x values x headers x entry points x prior path contents x caller interleavings; every read "
      "is compared bit-for-bit with the written table and the file's bytes are parsed independently after every write. "
      "Sampling, not proof."),
@@ -143,7 +145,8 @@ SPECS["C04"] = _rec(
      "rows of 2**m characters. Non-trivial = at least one perturbation fired"),
     ["create_over_stale_bytes", "overwrite", "path_held_other_form", "object_reopened_on_other_file",
      "table_larger_than_stdio_buffer", "interleaved_callers", "long_lived_object_reopened",
-     "header_dict_read_from_an_earlier_file", "several_writes_on_one_handle", "reopen_for_append"],
+     "header_dict_read_from_an_earlier_file", "several_writes_on_one_handle", "reopen_for_append",
+     "caller_edited_a_result_in_place", "file_names_expanded_by_esutil_var"],
     ("seeded search as C01; values are compared exactly for integers and strings and to 16/7 significant digits for floats, "
      "NaN/inf preserved; independent tokenisation of the file's text. Sampling, not proof."),
     "working file system; magnitudes within 1e-14 (f8) / 1e-5 (f4) of the largest finite value are not generated (their "
@@ -159,7 +162,7 @@ SPECS["C02"] = _rec(
      "names that differ only in case. Non-trivial = a previous read, a rejected request or a re-open preceded a judged "
      "read on the same handle"),
     ["previous_read_on_same_handle", "read_after_rejected_request", "out_of_range_row_list",
-     "object_reopened_on_other_file", "interleaved_callers", "nonzero_offset"],
+     "object_reopened_on_other_file", "interleaved_callers", "nonzero_offset", "caller_edited_a_result_in_place"],
     ("seeded search over selections x access styles x handle histories (cursor left by the previous read, rejected "
      "requests, interleaved handles on one file); every result is compared bit-for-bit with numpy indexing of the table "
      "returned by a full read. Sampling, not proof."),
@@ -175,7 +178,8 @@ SPECS["C03"] = _rec(
      "paths use size-coincidence chunks (2**k rows of 2**m bytes, rarely 16 MiB). Non-trivial = at least one "
      "perturbation fired"),
     ["append_to_missing_file", "reopen_for_append", "incompatible_append", "several_writes_on_one_handle",
-     "close_after_writes", "overwrite", "create_over_stale_bytes", "interleaved_callers"],
+     "close_after_writes", "overwrite", "create_over_stale_bytes", "interleaved_callers",
+     "chunk_handed_over_as_2d_array", "file_names_expanded_by_esutil_home", "caller_edited_a_result_in_place"],
     ("seeded search over operation histories; the model is the list of accepted chunks; after every mutating step with no "
      "writer open the file's bytes are parsed independently (SIZE line, END, rows x itemsize bytes or rows lines) and "
      "every read-back is compared with the concatenation. Sampling, not proof."),
@@ -200,7 +204,9 @@ SPECS["C19"] = {
     "stub": ["the random source (SimRNG, legacy and new-style duck types): every deviate is drawn, recorded and sometimes "
              "forced to an edge by the simulator"],
     "expect_reach": ["edge_value", "repeated_value", "target_value", "forced_rotation_path", "zero_width_box",
-                     "closed_end_value", "deviate_exactly_one", "deviate_on_a_run_of_equal_cumulative_values"],
+                     "closed_end_value", "deviate_exactly_one", "deviate_on_a_run_of_equal_cumulative_values",
+                     "same_density_object_with_changed_parameters", "deviate_equal_to_a_tabulated_cumulative_value",
+                     "caller_edited_a_result_in_place"],
     "assumptions": ["separations are judged with an atan2(|a x b|, a.b) reference in extended precision; 'inside' means "
                     "within 1e-9 deg plus the 1/cos(dec) conditioning of a latitude next to a pole",
                     "the accept/reject ('cut') sampler method is outside the statement and not exercised"],
@@ -233,7 +239,8 @@ SPECS["C10"] = {
     "stub": [],
     "expect_reach": ["interleaved_callers_on_one_object", "call_after_aborted_call", "call_aborted_half_way",
                      "scalar_array_alternation", "lazy_inverse_fit_built_late", "lazy_inverse_fit_built_first",
-                     "non_finite_input", "sky_position_far_from_the_field", "another_wcs_object_created_and_used"],
+                     "non_finite_input", "sky_position_far_from_the_field", "another_wcs_object_created_and_used",
+                     "request_buffers_refilled_in_place", "caller_edited_a_result_in_place"],
     "assumptions": ["clean-room reference: pixel offset, CD matrix, TPV/SIP polynomial in the convention's order, t + xi*e + "
                     "eta*n normalised (extended precision)",
                     "crval2 = +90 exactly is only generated with an explicit LONPOLE=180 (the FITS default differs there)",
@@ -272,7 +279,8 @@ SPECS["C12"] = {
     "expect_reach": ["matcher_reused", "match_after_rejected_call", "stale_pair_file_at_output_path",
                      "interleaved_matchers", "rejected_call_size_mismatch", "rejected_call_unwritable",
                      "oneshot_compared", "second_depth_compared", "oneshot_object_reused",
-                     "oneshot_buffer_refilled_in_place", "presented_swapped", "presented_strided"],
+                     "oneshot_buffer_refilled_in_place", "presented_swapped", "presented_strided",
+                     "caller_edited_a_result_in_place"],
     "assumptions": ["brute-force separations: atan2(|a x b|, a.b) in extended precision", "pairs within 1e-9 deg of the "
                     "radius are not constrained (as the property states)",
                     "depth and radius are drawn jointly so that one circle covers at most ~2e4 leaf triangles (cost bound); "
